@@ -110,6 +110,16 @@ def families():
             out.append((b, bf))
     b = [(0.0, 0.0, rng.randn(4)), (0.6, -2.0, rng.randn(3)), (1.0, -3.5, rng.randn(6)), (1.0, -3.1, rng.randn(2)), (1.0, -3.9, rng.randn(5))]
     out.append((b, 1.0))
+    # a tail of iterations at beta = 1 whose evidence estimates have settled (differences ~1e-3 on values ~ -2500): still separate components
+    for base, eps_ in ((-2500.0, 1e-3), (-40.0, 3e-7), (1e4, 0.05)):
+        b = [(0.0, 0.0, rng.randn(5) * 2 + base * 0.0), (0.5, base * 0.5, rng.randn(4) * 2 + base)] + \
+            [(1.0, base + eps_ * k, rng.randn(3 + k) * 2 + base) for k in range(5)]
+        out.append((b, 1.0))
+        out.append((b, 0.5))
+    # every component log-density of a sample between -745 and -709 (exp() is subnormal there, no warning is raised)
+    b = [(0.0, 720.0, np.array([-3.0, 2.0, 5.0, -8.0])), (1.0, 725.0, np.array([-1.0, 4.0, 0.5])), (0.5, 730.0, np.array([3.0, -2.0, 1.0, 6.0, 0.0]))]
+    out.append((b, 1.0))
+    out.append((b, 0.3))
     # peaked: a sample whose best term is ~800 nats above the others'
     b = [(0.0, 0.0, np.array([-3.0, -2.0, -900.0])), (1.0, -5.0, np.array([-1.0, -1000.0, 0.0, -2.0]))]
     out.append((b, 1.0))
@@ -266,7 +276,17 @@ def main():
         if r:
             print(json.dumps({"reproduced": True, "detail": r, "tried": tried, "input": {"case": name}}))
             return
-    for b, bf in families():
+    fam = families()
+    # the caller's numpy error state is not the library's business: same contract with floating-point warnings silenced
+    for b, bf in fam[::3]:
+        tried += 1
+        with np.errstate(all="ignore"):
+            r = check(b, bf)
+        if r:
+            print(json.dumps({"reproduced": True, "detail": "under np.errstate(all='ignore'): " + r, "tried": tried,
+                              "input": {"errstate": "ignore", "batches": [[float(x[0]), float(x[1]), np.asarray(x[2]).tolist()] for x in b], "beta_final": bf}}))
+            return
+    for b, bf in fam:
         tried += 1
         r = check(b, bf)
         if r:
